@@ -1061,6 +1061,10 @@ def _seq_class(canon, expr, stmt, depth=0):
   if isinstance(expr, ast.Call) and isinstance(expr.func, ast.Name) and \
       expr.func.id in ("list", "tuple") and len(expr.args) == 1:
     return _seq_class(canon, expr.args[0], stmt, depth + 1)
+  if isinstance(expr, ast.BinOp) and isinstance(expr.op, ast.Add):
+    l = _seq_class(canon, expr.left, stmt, depth + 1)
+    r = _seq_class(canon, expr.right, stmt, depth + 1)
+    return "params" if {l, r} == {"positional-params", "kwonly-params"} else None
   if canon is None:
     return _self_sig_seq(expr)
   if isinstance(expr, ast.Name):
@@ -1119,6 +1123,7 @@ def _count_class(ctx, binder, canon, expr, stmt, depth=0):
         body[0].value is None:
       return None
     own = _count_class(ctx, binder, None, body[0].value, body[0], depth + 1)
+    kinds = [own]
     # an override in a subclass of the binder's class must agree
     for rel in {binder.rel, IF}:
       m = get_module(ctx, rel)
@@ -1133,11 +1138,11 @@ def _count_class(ctx, binder, canon, expr, stmt, depth=0):
         other = _count_class(ctx, binder, None, b[0].value, b[0], depth + 1) \
             if len(b) == 1 and isinstance(b[0], ast.Return) and b[0].value is not None \
             else None
-        if other != own:
-          raise AnalysisError(
-              f"{cname}.{expr.func.attr} overrides the capacity of "
-              f"{cls.name}.{expr.func.attr} ({other} vs {own})")
-    return own
+        kinds.append(other)
+    if None in kinds:
+      return None
+    wrong = [k for k in kinds if k != "positional"]
+    return wrong[0] if wrong else "positional"
   return None
 
 
@@ -1351,5 +1356,5 @@ VARIANTS = [
      "new": "    elif len(posargs) > len(sig.param_names):"},
     {"name": "twin-pytd-capacity-renamed-via-tuple", "rule": "R13.5", "expect": "silent",
      "edits": [(PF, "    num_expected_posargs = len(self.signature.param_names)\n    if len(args.posargs) > num_expected_posargs and",
-                "    positional_names = tuple(self.signature.param_names)\n    num_expected_posargs = capacity = len(positional_names)\n    if len(args.posargs) > capacity and")]},
+                "    positional_names = tuple(self.signature.param_names)\n    num_expected_posargs = len(positional_names)\n    if num_expected_posargs < len(args.posargs) and")]},
 ]
